@@ -147,6 +147,48 @@ CLAIMED.update({
              technique="bounded symbolic execution of the real SerializableLock over solver-enumerated operation histories (symx + z3), per-path native replay"),
 })
 
+CLAIMED.update({
+ "C08": dict(text="Legacy terms from a choice grammar (calls, lists, non-call tuples, dict arguments, quoted values, key-like literals, tuple keys; depth <=2, width <=2) "
+                  "with symbolic integer leaves are converted by the real convert_legacy_graph and executed (node call, dask.core.get, resolve_aliases + "
+                  "execute_graph) against an independent evaluator written from the graph spec; node.dependencies / DependenciesMapping equal an independent "
+                  "walk of referenced keys; task-object graphs with nested List/Tuple/Set/Dict/Alias/DataNode likewise; pickle round trips and "
+                  "dask.get/threaded.get on every witness. 'A literal equal to a key is a reference' is decided by the solver on the symbolic leaves. Dict "
+                  "values that are legacy terms violate the literal property text and are the listed known finding.",
+             note=_ENUM_NOTE + "Integer leaves of legacy terms are hashed by the converter (`in all_keys`), i.e. enumerated over small ranges; ints inside quoted "
+                  "values, dict arguments and task objects stay symbolic. ShimInt for dask._task_spec.int. Outside: namedtuples, SubgraphCallable, futures, depth > 2.",
+             design_ref="DESIGN.md sec. 3 C08"),
+ "C09": dict(text="cull, inline, inline_functions, fuse_linear, fuse, fuse_linear_task_spec, GraphNode.fuse, resolve_aliases and substitute run on solver-enumerated "
+                  "graphs (N<=3-5 nodes: tasks, literals, aliases; five argument styles; every edge and requested subset; both dict orders) with symbolic "
+                  "leaves: every requested key is kept, dask.core.get on the optimised graph equals a dask-free reference evaluation as z3 terms (for all leaf "
+                  "values), returned dependency maps equal dependencies recomputed from the returned graph. fuse's ave_width/max_width/max_height/"
+                  "max_depth_new_edges are symbolic ints in [0,4], so z3 splits the parameter space along the comparisons fuse makes; rename_keys on/off/"
+                  "custom incl. names that clash with existing keys. Keys inside non-call tuple arguments are the listed known finding.",
+             note=_ENUM_NOTE + "Legacy-graph literals are hashed (one shared symbolic offset); task-spec leaves are unbounded symbolic ints. ShimInt for "
+                  "dask.optimization.int. Outside: Dict/Set containers, kwargs, SubgraphCallable, block_fusion, fusion quality.", design_ref="DESIGN.md sec. 3 C09"),
+ "C11": dict(text="Pairs of nodes drawn independently from one grammar (List/Tuple/Set/Dict containers incl. permutations, re-pairings and re-nestings, Tasks with "
+                  "permuted args / swapped kwargs / different functions, Alias, DataNode; symbolic integer literals) are compared with the real __eq__ and "
+                  "tokenize; whenever they are equal or share a token, evaluating both with the real GraphNode.__call__ on symbolic dependency values must "
+                  "give z3-equal results (for all dependency values). Pickle copies and both nodes in one scheduler run on witnesses.",
+             note=_ENUM_NOTE + "Literals are enumerated over [0,1]/[0,2] (tokenisation md5s them); md5/pickle collisions trusted; one normalize_token dispatch "
+                  "entry for the proxy type during symbolic paths.", design_ref="DESIGN.md sec. 3 C11"),
+ "C19": dict(text="Shape / chunk / block-alignment kernels behind elementwise operations with symbolic dimension sizes in [0,4] and chunk sizes in [1,4]: "
+                  "broadcast_shapes equals the NumPy rule (ValueError exactly when NumPy raises), common_blockdim and unify_chunks give chunks that sum to "
+                  "the broadcast dimension with boundary set == union of the inputs' boundaries, broadcast_chunks, broadcast_to, and the real Blockwise layer "
+                  "(ten index patterns): one task per output block reading exactly the aligned input blocks (block 0 of single-block axes). e2e: x+y, where, "
+                  "out=, astype, clip, broadcast_arrays against NumPy in values, dtype, shape, chunks. Length<=1 axes cut into several chunks are the listed "
+                  "known finding.",
+             note=_ENUM_NOTE + "Chunk tuples are hashed into sets by the kernels (enumerated within the small bounds); np/int/math shims in dask.array.core; "
+                  "recording Array stand-ins for unify_chunks. Outside: ufunc values/dtype promotion beyond witnesses, NaN chunks, >3 operands, >2 dims.",
+             design_ref="DESIGN.md sec. 3 C19"),
+ "C24": dict(text="reshape kernels: contract_tuple and expand_tuple with symbolic chunk sizes (sum preserved, divisibility / refinement of the original "
+                  "boundaries); reshape_rechunk and the block pairing of reshape() on solver-enumerated shape pairs (merge, split, mixed, size-1; dims <= 6-8) "
+                  "and all input chunkings with <=2-3 chunks per axis: in/out chunks add up, equal block counts and sizes, and reshaping block k to the k-th "
+                  "output block reproduces NumPy's row-major reshape for every element; e2e x.reshape with merge_chunks on/off.",
+             note=_ENUM_NOTE + "reshape_rechunk multiplies chunk sizes and takes float ceilings: bounded exhaustive enumeration there, no symbolic claim. Outside: "
+                  "the other structural routines named by the property (transpose, concatenate/stack/block, flip, roll, repeat, tile, pad, tril, diff, take): "
+                  "their index work is NumPy's or the slicing kernels of C20.", design_ref="DESIGN.md sec. 3 C24"),
+})
+
 NOT_APPLICABLE = {}
 
 _NA_DESIGN = {
